@@ -348,7 +348,7 @@ def run(ctx):
         ['sfc_models/sector.py', 'sfc_models/models.py', 'sfc_models/equation.py'])}
     out.trusted_base = ['Coq 8.16.1 kernel + vm_compute',
                         'hand-written model coq/Eqn/Ledger.v over Lexer.v, Term.v, Equation.v (tied by this correspondence)',
-                        'Reals axioms of the standard library (sig_forall_dec, sig_not_dec, functional_extensionality_dep) '
+                        'Reals axioms of the standard library (ClassicalDedekindReals.sig_forall_dec, FunctionalExtensionality.functional_extensionality_dep) '
                         'as printed by Print Assumptions',
                         "Python's own ast/eval as the meaning of rendered right-hand sides (oracle)"]
     out.assumptions = ['income exclusions are those in force when the flow is registered (DESIGN.md section 5)',
